@@ -207,6 +207,9 @@ _bk_gen, _bk_chk = build.backend_dimension(0.12)
 gen_case = _bk_gen(gen_case)
 check_case = _bk_chk(check_case)
 
+# no clause depends on the coordinate unit: 8 % of the planar cases are expressed in a small unit (everything x 2^-7..2^-17)
+gen_case = mcase.scale_dimension(0.08)(gen_case)
+
 TECHNIQUE = "runtime monitoring: online invariant monitor on the live pruning state at every expansion boundary + differential sibling executions (pruned/unpruned/wide) + widening histories"
 LEVEL_TEXT = ("{Q} (quick) / {T} (thorough) generated cases; every expansion window of every real run (~10 per run, incl. non-emitting layers) is "
               "checked online for: expanded set within top-W plus ties, strict max(postponed) < min(expanded), next() only and always on the "
